@@ -20,9 +20,10 @@ L11 == {<<"tick">>} \cup {<<"hb", nd, st>> : nd \in {10, 11, 12}, st \in {5, 127
        \cup {HcW(k, nd, t) : k \in {1, 2}, nd \in {10, 11, 12}, t \in {0, 2, 3}}
        \cup {<<"hbev", nd>> : nd \in {10, 11, 12}} \cup {<<"hblast", nd>> : nd \in {10, 11}} \cup {<<"sdord", 4118, 1>>, <<"sdord", 4118, 2>>}
        \cup {HcW(1, 10, 32768), HcW(2, 12, 65535)}        \* the value range of the 16-bit consumer time
+       \cup {<<"nmt", 130, 5>>}                            \* reset communication: monitoring starts afresh with the first heartbeat
 L11Q == {<<"tick">>} \cup {<<"hb", nd, 5>> : nd \in {10, 11, 12}} \cup {<<"hb", 10, 127>>}
        \cup {HcW(k, nd, t) : k \in {1, 2}, nd \in {10, 11}, t \in {0, 2}} \cup {HcW(1, 12, 2)}
-       \cup {<<"hbev", nd>> : nd \in {10, 11}} \cup {<<"hblast", 10>>, <<"sdord", 4118, 2>>} \cup {HcW(1, 10, 40000)}
+       \cup {<<"hbev", nd>> : nd \in {10, 11}} \cup {<<"hblast", 10>>, <<"sdord", 4118, 2>>} \cup {HcW(1, 10, 40000), <<"nmt", 130, 5>>}
 P11 == << <<"pool">>, <<"sdord", 4118, 1>>, <<"sdord", 4118, 2>>, <<"hb", 10, 5>>, <<"hb", 11, 5>>, <<"hb", 12, 5>>, <<"tick">>, <<"tick">>, <<"tick">>, <<"tick">>, <<"tick">>, <<"tick">>,
           <<"hbev", 10>>, <<"hbev", 11>>, <<"hbev", 12>>, <<"hblast", 10>>, <<"hblast", 11>>, <<"hblast", 12>>, <<"pool">>, <<"hb", 10, 127>>, <<"tick">>, <<"tick">>, <<"tick">>, <<"pool">> >>
 \* ---- C20 (node services part): heartbeat producer + two consumers + application timers, reset in every state
